@@ -11,6 +11,7 @@
      settle   the stack is quiescent (every goroutine parked)
      accept   result of Accept(): ok + peer index, or would-block
      up       state of the active open: connected / connecting / error
+     closel   the listener was closed (afterwards a 4-tuple with nothing left on it has no socket: every segment gets the reset)
      listen connect connret retarget state probecall probe end   bookkeeping
    32-bit sequence numbers are (hi, lo) pairs of 16-bit halves.
    Per 4-tuple the spec keeps what was DELIVERED (SYNs, qualifying ACKs), what the
@@ -18,8 +19,8 @@
    the handshake connection ("def": one certainly exists in SYN-SENT/SYN-RCVD,
    "maybe", "no") - the BadAck obligation is only imposed in "def".  *)
 EXTENDS TraceIO, FiniteSets
-VARIABLES cfg, syn, issued, own, cur, qual, qual21, qual22, cqual, expect, probing, pmss, pws, sws, edge
-tvars == <<l, cfg, syn, issued, own, cur, qual, qual21, qual22, cqual, expect, probing, pmss, pws, sws, edge>>
+VARIABLES cfg, syn, issued, own, cur, qual, qual21, qual22, cqual, expect, probing, pmss, pws, sws, edge, gone
+tvars == <<l, cfg, syn, issued, own, cur, qual, qual21, qual22, cqual, expect, probing, pmss, pws, sws, edge, gone>>
 
 PP == 0..7
 None32 == <<-1, -1>>
@@ -34,7 +35,7 @@ Ack32(e) == <<e.ackhi, e.acklo>>
 
 Blank == /\ syn = [p \in PP |-> {}] /\ issued = [p \in PP |-> {}] /\ own = [p \in PP |-> {}]
          /\ cur = [p \in PP |-> NoCur] /\ qual = [p \in PP |-> FALSE] /\ qual21 = [p \in PP |-> FALSE] /\ qual22 = [p \in PP |-> FALSE]
-         /\ cqual = FALSE /\ expect = NoExp /\ probing = FALSE
+         /\ cqual = FALSE /\ expect = NoExp /\ probing = FALSE /\ gone = FALSE
          /\ pmss = [p \in PP |-> -1] /\ pws = [p \in PP |-> -1] /\ sws = [p \in PP |-> -1] /\ edge = [p \in PP |-> -1]
 TInit == l = 1 /\ cfg = [role |-> "none", cookie |-> 0, kf21 |-> FALSE, kf22 |-> FALSE, nosock |-> FALSE] /\ Blank /\ HWInit
 
@@ -42,14 +43,19 @@ Reset == /\ IsEvent("reset") /\ expect.kind \in {"none", "free"}
          /\ cfg' = [role |-> Ev.role, cookie |-> Ev.cookie, kf21 |-> Fld(Ev, "kf21", FALSE), kf22 |-> Fld(Ev, "kf22", FALSE), nosock |-> Fld(Ev, "nosock", FALSE)]
          /\ syn' = [p \in PP |-> {}] /\ issued' = [p \in PP |-> {}] /\ own' = [p \in PP |-> {}]
          /\ cur' = [p \in PP |-> NoCur] /\ qual' = [p \in PP |-> FALSE] /\ qual21' = [p \in PP |-> FALSE] /\ qual22' = [p \in PP |-> FALSE]
-         /\ cqual' = FALSE /\ expect' = NoExp /\ probing' = FALSE
+         /\ cqual' = FALSE /\ expect' = NoExp /\ probing' = FALSE /\ gone' = FALSE
          /\ pmss' = [p \in PP |-> -1] /\ pws' = [p \in PP |-> -1] /\ sws' = [p \in PP |-> -1] /\ edge' = [p \in PP |-> -1]
 
-Keep == UNCHANGED <<cfg, syn, issued, own, cur, qual, qual21, qual22, cqual, pmss, pws, sws, edge>>
+Keep == UNCHANGED <<cfg, syn, issued, own, cur, qual, qual21, qual22, cqual, pmss, pws, sws, edge, gone>>
 \* API calls after which the stack may emit on its own until the next settle
 Book == /\ \/ IsEvent("listen") \/ IsEvent("connret") \/ IsEvent("retarget") \/ IsEvent("state") \/ IsEvent("probe") \/ IsEvent("end")
         /\ expect.kind \in {"none", "free"}
         /\ Keep /\ UNCHANGED <<expect, probing>>
+\* the listener is closed: half-open connections may linger (state unknown), queued connections are torn down
+CloseListener == /\ IsEvent("closel") /\ expect.kind = "none" /\ cfg.role = "passive"
+                 /\ gone' = TRUE /\ expect' = Free(0)
+                 /\ cur' = [p \in PP |-> IF cur[p].st = "def" THEN [cur[p] EXCEPT !.st = "maybe"] ELSE cur[p]]
+                 /\ UNCHANGED <<cfg, syn, issued, own, qual, qual21, qual22, cqual, probing, pmss, pws, sws, edge>>
 ConnectCall == /\ IsEvent("connect") /\ expect.kind = "none" /\ cfg.role = "active"
                /\ expect' = Free(0) /\ Keep /\ UNCHANGED probing
 ProbeCall == /\ IsEvent("probecall") /\ expect.kind = "none"
@@ -72,13 +78,17 @@ Qual22Now(p, e) == /\ HasFlag(e, "A") /\ ~HasFlag(e, "R")
 CurAfter(p, e) ==
   LET c == cur[p] S == HasFlag(e, "S") A == HasFlag(e, "A") R == HasFlag(e, "R") IN
   IF c.st # "def" THEN c
-  ELSE IF R THEN [c EXCEPT !.st = "maybe"]
+  ELSE IF R THEN (IF cfg.role = "passive" /\ Seq32(e) = c.irs1 THEN NoCur        \* reset exactly at RCV.NXT: the half-open connection is gone,
+                  ELSE [c EXCEPT !.st = "maybe"])                                \* the 4-tuple is fresh again
   ELSE IF A /\ Ack32(e) # Add32(c.iss, 1) THEN (IF S THEN [c EXCEPT !.st = "maybe"] ELSE c)
   ELSE IF A THEN [c EXCEPT !.st = "maybe"]                              \* acknowledges iss+1: may complete
   ELSE IF S THEN (IF c.irs1 = None32 /\ cfg.role = "active" THEN [c EXCEPT !.irs1 = Add32(Seq32(e), 1)]   \* simultaneous open
                   ELSE IF c.irs1 = Add32(Seq32(e), 1) THEN c           \* duplicate SYN
                   ELSE [c EXCEPT !.st = "maybe"])
   ELSE c
+\* the listener was closed and nothing can be left on this 4-tuple: no half-open connection (cur "no": never begun, or
+\* reset at RCV.NXT) and no handshake that may have put a connection into the accept queue
+NoSocketLeft(p) == gone /\ cfg.role = "passive" /\ cur[p].st = "no" /\ ~qual[p] /\ ~qual21[p] /\ ~qual22[p]
 EffWs(p) == IF pws[p] >= 0 /\ sws[p] >= 0 THEN pws[p] ELSE 0
 Inj == /\ IsEvent("inj") /\ expect.kind = "none" /\ Ev.pp \in PP
        /\ LET p == Ev.pp c == cur[p] S == HasFlag(Ev, "S") A == HasFlag(Ev, "A") R == HasFlag(Ev, "R")
@@ -94,7 +104,7 @@ Inj == /\ IsEvent("inj") /\ expect.kind = "none" /\ Ev.pp \in PP
           /\ expect' = IF probing THEN Free(p)
                        \* no socket for this family (IPv4 peer, the only socket is IPV6_V6ONLY): exactly one reset that acknowledges
                        \* the segment, sequence number = its ack number (0 without ACK); a reset gets nothing
-                       ELSE IF cfg.nosock /\ ~R
+                       ELSE IF (cfg.nosock \/ NoSocketLeft(p)) /\ ~R
                             THEN [kind |-> "mustrst", pp |-> p, seq |-> IF A THEN Ack32(Ev) ELSE <<0, 0>>,
                                   ack |-> Add32(Seq32(Ev), Ev.n + (IF S THEN 1 ELSE 0) + (IF HasFlag(Ev, "F") THEN 1 ELSE 0))]
                        ELSE IF R THEN [kind |-> "quiet", pp |-> p, seq |-> None32, ack |-> None32]                       \* ResetNeverAnswered (any state)
@@ -109,7 +119,7 @@ Inj == /\ IsEvent("inj") /\ expect.kind = "none" /\ Ev.pp \in PP
           /\ cqual' = (cqual \/ (cfg.role = "active" /\ A /\ ~R /\ (\E x \in own[p] : Ack32(Ev) = Add32(x, 1)) /\ (S \/ syn[p] # {})))
           /\ pmss' = [pmss EXCEPT ![p] = mss2] /\ pws' = [pws EXCEPT ![p] = ws2]
           /\ edge' = [edge EXCEPT ![p] = e2]
-          /\ UNCHANGED <<cfg, issued, own, sws, probing>>
+          /\ UNCHANGED <<cfg, issued, own, sws, probing, gone>>
 
 \* ---------------------------------------------------------------- the stack emits
 IsTcp == Ev.kind = "tcp" /\ Ev.pp \in PP /\ Ev.addrok
@@ -130,7 +140,7 @@ EmitSyn == /\ IsEvent("emit") /\ IsTcp /\ HasFlag(Ev, "S") /\ ~HasFlag(Ev, "R") 
                                   ELSE @]                                \* active, simultaneous open: the connection stays what it was
                  ELSE /\ issued' = issued
                       /\ cur' = [cur EXCEPT ![p] = IF cfg.role = "active" THEN [st |-> "def", iss |-> r.iss, irs1 |-> None32] ELSE @]
-           /\ UNCHANGED <<cfg, syn, qual, qual21, qual22, cqual, expect, probing, pmss, pws, edge>>
+           /\ UNCHANGED <<cfg, syn, qual, qual21, qual22, cqual, expect, probing, pmss, pws, edge, gone>>
 \* BadAck: the reply is a reset whose sequence number is the offending acknowledgement number; nothing follows it
 EmitMustRst == /\ IsEvent("emit") /\ IsTcp /\ expect.kind = "mustrst" /\ Ev.pp = expect.pp
                /\ HasFlag(Ev, "R") /\ ~HasFlag(Ev, "S") /\ Seq32(Ev) = expect.seq /\ Ev.sumok /\ Ev.ipok /\ Ev.n = 0
@@ -163,13 +173,13 @@ Accept == /\ IsEvent("accept") /\ expect.kind = "none" /\ cfg.role = "passive"
                   /\ pws' = [pws EXCEPT ![Ev.pp] = IF qual[Ev.pp] THEN @ ELSE -2]
                   /\ edge' = [edge EXCEPT ![Ev.pp] = IF qual[Ev.pp] THEN @ ELSE -1]
              ELSE UNCHANGED <<qual, qual21, qual22, cur, expect, pmss, pws, edge>>
-          /\ UNCHANGED <<cfg, syn, issued, own, cqual, probing, sws>>
+          /\ UNCHANGED <<cfg, syn, issued, own, cqual, probing, sws, gone>>
 \* ConnectOK: the active open reports success only after a SYN and an ACK of exactly iss+1 were delivered
 Up == /\ IsEvent("up") /\ expect.kind = "none" /\ cfg.role = "active"
       /\ Ev.res = "connected" => cqual
       /\ cur' = [cur EXCEPT ![0] = IF Ev.res = "connecting" THEN @ ELSE [@ EXCEPT !.st = IF Ev.res = "connected" THEN "est" ELSE "maybe"]]
-      /\ UNCHANGED <<cfg, syn, issued, own, qual, qual21, qual22, cqual, expect, probing, pmss, pws, sws, edge>>
+      /\ UNCHANGED <<cfg, syn, issued, own, qual, qual21, qual22, cqual, expect, probing, pmss, pws, sws, edge, gone>>
 
-TNext == Reset \/ Book \/ ConnectCall \/ ProbeCall \/ Inj \/ EmitRetx \/ EmitSyn \/ EmitMustRst \/ EmitFree \/ Settle \/ Accept \/ Up
+TNext == Reset \/ Book \/ CloseListener \/ ConnectCall \/ ProbeCall \/ Inj \/ EmitRetx \/ EmitSyn \/ EmitMustRst \/ EmitFree \/ Settle \/ Accept \/ Up
 TSpec == TInit /\ [][TNext]_tvars
 ====
